@@ -59,6 +59,12 @@ func runC18(b *fw.B) {
 		if quick {
 			sc.Epochs = min(sc.Epochs, 8)
 		}
+		if (b.Batch+k)%8 == 5 {
+			// a phase0-only chain rich in operations: there the per-operation polls are the last ones of the block transition
+			sc.ForkEpochs = [4]uint64{ff, ff, ff, ff}
+			sc.POps = 0.9
+			sc.MergeDelay = 0
+		}
 		b.Case("chain-"+fam, sc.String())
 		sampleP := 0.12
 		if !quick {
@@ -215,7 +221,7 @@ func runC18(b *fw.B) {
 					}
 					nCalls := len(eng.Calls)
 					for j := 1; j <= nCalls; j++ {
-						for verdict := 1; verdict <= 2; verdict++ {
+						for verdict := 1; verdict <= 4; verdict++ {
 							validate = (j+verdict)%2 == 0
 							var ferr error
 							var feng *sim.ScriptedEngine
@@ -238,7 +244,7 @@ func runC18(b *fw.B) {
 								if j-1 < len(feng.Calls) {
 									site = feng.Calls[j-1].Site
 								}
-								viol(fmt.Sprintf("engine-fault/swallowed/%s/%s", site, []string{"", "invalid", "error"}[verdict]), fmt.Sprintf("%s: engine call %d (%s) answered %s but the transition reported success", where, j, site, []string{"", "invalid", "error"}[verdict]))
+								viol(fmt.Sprintf("engine-fault/swallowed/%s/%s", site, []string{"", "invalid", "error", "error-wrapping-deadline-exceeded", "error-wrapping-canceled"}[verdict]), fmt.Sprintf("%s: engine call %d (%s) answered %s but the transition reported success", where, j, site, []string{"", "invalid", "error", "error-wrapping-deadline-exceeded", "error-wrapping-canceled"}[verdict]))
 								return false
 							}
 						}
